@@ -10,9 +10,16 @@ for id in $ids; do
   if grep -q '"superseded"' "seeded/$id/meta.json" 2>/dev/null; then echo "$id: superseded (see meta.json)"; continue; fi
   SCR=$(mktemp -d /tmp/vfseed.XXXXXX); cp -r /repo/src "$SCR/src"
   if ! (cd "$SCR" && git init -q . >/dev/null 2>&1; git apply "/verif/seeded/$id/patch.diff"); then echo "$id: patch does not apply"; rm -rf "$SCR"; miss=1; continue; fi
-  out=$(VF_SRC="$SCR/src" VF_MUTANT=1 ./check $P --tier quick --no-evidence 2>&1); rc=$?
+  # the checks recorded as catching this seed (meta.json); normally the property's own check
+  Q=$(/venv/bin/python -c "import json,sys; m=json.load(open('seeded/$id/meta.json')); print(' '.join(k for k,v in m['checks'].items() if isinstance(v,dict) and v.get('exit')==1) or '$P')")
+  rc=0; by=""
+  for q in $Q; do
+    out=$(VF_SRC="$SCR/src" VF_MUTANT=1 ./check $q --tier quick --no-evidence 2>&1); r=$?
+    find replays -maxdepth 1 -name "$q-*.json" -newer "seeded/$id/patch.diff" -delete 2>/dev/null
+    if [ $r = 1 ]; then rc=1; by="$by $q"; else by="$by $q(exit $r)"; fi
+    [ $r = 1 ] && [ "$q" = "$P" ] && break
+  done
   rm -rf "$SCR"
-  find replays -maxdepth 1 -name "$P-*.json" -newer "seeded/$id/patch.diff" -delete 2>/dev/null
-  if [ $rc = 1 ]; then echo "$id: CAUGHT"; else echo "$id: MISSED (exit $rc)"; miss=1; fi
+  if [ $rc = 1 ]; then echo "$id: CAUGHT by$by"; else echo "$id: MISSED ($by)"; miss=1; fi
 done
 exit $miss
